@@ -39,6 +39,10 @@ pub struct PollCase {
     pub pend_http: u32,
     pub pend_sleep: u32,
     pub bad_uri: bool,
+    /// bit 0: call set_max_backoff_interval BEFORE set_time_fn (each rebuilds or updates the request: neither may drop
+    /// what the other set); bit 1: obtain the device-authorization response over the HTTP path instead of from a value
+    #[serde(default)]
+    pub glue: u8,
 }
 
 const NS: i128 = 1_000_000_000;
@@ -114,11 +118,13 @@ fn reply_for(kind: u8) -> Result<HttpResponse, FakeErr> {
     })
 }
 
-struct Delay<T> {
+/// a future that reports Pending `left` times and only THEN performs its effect (records the event, advances the
+/// virtual clock, produces the reply): a caller that creates the future but never awaits it leaves no trace
+struct Delay<F> {
     left: u32,
-    val: Option<T>,
+    run: Option<F>,
 }
-impl<T: Unpin> Future for Delay<T> {
+impl<T, F: FnOnce() -> T + Unpin> Future for Delay<F> {
     type Output = T;
     fn poll(mut self: Pin<&mut Self>, cx: &mut Context<'_>) -> Poll<T> {
         if self.left > 0 {
@@ -126,7 +132,7 @@ impl<T: Unpin> Future for Delay<T> {
             cx.waker().wake_by_ref();
             Poll::Pending
         } else {
-            Poll::Ready(self.val.take().unwrap())
+            Poll::Ready((self.run.take().expect("future polled after completion"))())
         }
     }
 }
@@ -174,7 +180,19 @@ impl PollCase {
             Some(None) => doc["interval"] = serde_json::Value::Null,
             Some(Some(n)) => doc["interval"] = serde_json::json!(n),
         }
-        let dar: StandardDeviceAuthorizationResponse = serde_json::from_value(doc).unwrap();
+        let dar: StandardDeviceAuthorizationResponse = if self.glue & 2 == 2 {
+            // the whole composition: device-authorization reply over HTTP -> response value -> poll loop
+            let body = serde_json::to_vec(&doc).unwrap();
+            let dev_http = move |_r: HttpRequest| -> Result<HttpResponse, FakeErr> { Ok(response(200, Some(&b"application/json"[..]), &body)) };
+            client
+                .clone()
+                .set_device_authorization_url(DeviceAuthorizationUrl::new("https://example.com/device".into()).unwrap())
+                .exchange_device_code()
+                .request(&dev_http)
+                .expect("device authorization reply is well-formed")
+        } else {
+            serde_json::from_value(doc).unwrap()
+        };
 
         let w_time = world.clone();
         let (t0, mode, offsets) = (self.t0_ns, self.clock_mode, self.offsets_ns.clone());
@@ -224,19 +242,33 @@ impl PollCase {
             w.elapsed_ns = w.elapsed_ns.saturating_add(dur_ns(d).min(i128::MAX as u128 / 4) as i128).min(i128::MAX / 4);
         };
         let timeout = self.timeout.map(|(s, n)| Duration::new(s, n));
-        let mut rq = client.exchange_device_access_token(&dar).set_time_fn(time_fn);
-        if let Some((s, n)) = self.max_backoff {
-            rq = rq.set_max_backoff_interval(Duration::new(s, n));
-        }
+        let rq = client.exchange_device_access_token(&dar);
+        let rq = if self.glue & 1 == 1 {
+            // ceiling first, clock second
+            let rq = match self.max_backoff {
+                Some((s, n)) => rq.set_max_backoff_interval(Duration::new(s, n)),
+                None => rq,
+            };
+            rq.set_time_fn(time_fn)
+        } else {
+            let rq = rq.set_time_fn(time_fn);
+            match self.max_backoff {
+                Some((s, n)) => rq.set_max_backoff_interval(Duration::new(s, n)),
+                None => rq,
+            }
+        };
         let res = if variant == 0 {
             rq.request(&on_call, on_sleep, timeout)
         } else {
             let ph = self.pend_http;
             let ps = self.pend_sleep;
-            let http = move |r: HttpRequest| Delay { left: ph, val: Some(on_call(r)) };
+            let http = move |r: HttpRequest| {
+                let oc = on_call.clone();
+                Delay { left: ph, run: Some(move || oc(r)) }
+            };
             let sleep = move |d: Duration| {
-                on_sleep(d);
-                Delay { left: ps, val: Some(()) }
+                let os = on_sleep.clone();
+                Delay { left: ps, run: Some(move || os(d)) }
             };
             drive(rq.request_async(&http, sleep, timeout)).0
         };
@@ -363,6 +395,7 @@ impl CaseInput for PollCase {
             pend_http: r.below(4) as u32,
             pend_sleep: r.below(4) as u32,
             bad_uri: r.chance(1, 25),
+            glue: r.below(4) as u8,
         }
     }
 
@@ -408,6 +441,7 @@ impl CaseInput for PollCase {
                         pend_http: (ei % 3) as u32,
                         pend_sleep: (ei % 2) as u32,
                         bad_uri: false,
+                        glue: (ei % 4) as u8,
                     });
                 }
             }
